@@ -1,0 +1,56 @@
+//go:build verif
+
+// Machine-checked contracts for this package (comment-only; compiled only with -tags verif,
+// and even then contributes no code).  Read by /verif/govc; see /verif/DESIGN.md.
+
+package ippool
+
+//@ spec macro poolHasCond(p *v3.IPPool, t string, s metav1.ConditionStatus) bool = p.Status != nil &&
+//@      exists j int :: 0 <= j && j < len(p.Status.Conditions) && p.Status.Conditions[j].Type == t && p.Status.Conditions[j].Status == s
+//@ func hasCondition
+//@   property C39
+//@   requires p != nil
+//@   ensures res == poolHasCond(p, conditionType, status)
+//@   assigns nothing
+//@   loop 1 invariant -1 <= rangeindex && rangeindex < len(p.Status.Conditions) && p.Status != nil
+//@   loop 1 invariant forall j int :: 0 <= j && j <= rangeindex ==> !(p.Status.Conditions[j].Type == conditionType && p.Status.Conditions[j].Status == status)
+
+//@ -- Sort category from the statement: 0 allocatable and not being deleted; 1 terminating; 2 disabled by
+//@ -- condition; 3 new (no Allocatable condition yet).
+//@ spec macro poolCat(p *v3.IPPool) int =
+//@      (poolHasCond(p, "Allocatable", "True") && p.ObjectMeta.DeletionTimestamp == nil) ? 0
+//@      : (p.ObjectMeta.DeletionTimestamp != nil ? 1 : (poolHasCond(p, "Allocatable", "False") ? 2 : 3))
+//@ func poolSortCategory
+//@   property C39
+//@   requires p != nil
+//@   ensures res == poolCat(p)
+//@   assigns nothing
+
+//@ -- pools sort by category, then older first, then name: pkBefore is that strict order on the sort keys
+//@ spec func pkBefore(ca int, ta metav1.Time, na string, cb int, tb metav1.Time, nb string) bool =
+//@      ca < cb || (ca == cb && (tBefore(ta, tb) || (!tBefore(tb, ta) && na < nb)))
+//@ spec macro poolBefore(a *v3.IPPool, b *v3.IPPool) bool =
+//@      pkBefore(poolCat(a), a.ObjectMeta.CreationTimestamp, a.ObjectMeta.Name, poolCat(b), b.ObjectMeta.CreationTimestamp, b.ObjectMeta.Name)
+//@ -- ... and it is a strict weak order whose incomparable keys have equal category, equal name and
+//@ -- incomparable (= equal) timestamps, so sorting is deterministic and "already allocatable" (category 0)
+//@ -- always precedes terminating, disabled and new pools.
+//@ lemma pkBefore_irreflexive: forall c int, t metav1.Time, n string :: !pkBefore(c, t, n, c, t, n)
+//@   property C39
+//@   uses tBefore_irreflexive
+//@ lemma pkBefore_transitive: forall c1 int, t1 metav1.Time, n1 string, c2 int, t2 metav1.Time, n2 string, c3 int, t3 metav1.Time, n3 string ::
+//@      pkBefore(c1, t1, n1, c2, t2, n2) && pkBefore(c2, t2, n2, c3, t3, n3) ==> pkBefore(c1, t1, n1, c3, t3, n3)
+//@   property C39
+//@   uses tBefore_transitive, tBefore_negtransitive, tBefore_asymmetric
+//@ lemma pkBefore_total: forall c1 int, t1 metav1.Time, n1 string, c2 int, t2 metav1.Time, n2 string ::
+//@      !pkBefore(c1, t1, n1, c2, t2, n2) && !pkBefore(c2, t2, n2, c1, t1, n1) ==> c1 == c2 && n1 == n2 && !tBefore(t1, t2) && !tBefore(t2, t1)
+//@   property C39
+//@ lemma pkBefore_category_first: forall c1 int, t1 metav1.Time, n1 string, c2 int, t2 metav1.Time, n2 string ::
+//@      c1 < c2 ==> pkBefore(c1, t1, n1, c2, t2, n2) && !pkBefore(c2, t2, n2, c1, t1, n1)
+//@   property C39
+//@ func poolSortFunc
+//@   property C39
+//@   requires poolA != nil && poolB != nil
+//@   uses tBefore_asymmetric(poolA.ObjectMeta.CreationTimestamp, poolB.ObjectMeta.CreationTimestamp)
+//@   ensures (res < 0) <==> poolBefore(poolA, poolB)
+//@   ensures (res > 0) <==> poolBefore(poolB, poolA)
+//@   assigns nothing
